@@ -198,6 +198,14 @@ structure D where
   histIn : Array (Nat × Nat) := #[]       -- input stream of the pipelined divider
   stages : Nat := 0
   failClasses : List (String × Nat) := []
+  -- synchronizeGrayCode
+  gs : GraySyncState := ⟨none, []⟩
+  gsSeenA : Bool := false
+  gsSeenB : Bool := false
+  gsBeff : Nat := 0                 -- output-domain latch instants so far
+  gsStable : Nat × Bool × Nat := (0, false, 0)   -- (held input value, input register has it, chain latches since)
+  gsResetChecks : Nat := 0          -- how often "output = reset while the chain holds reset values" was evaluated
+  gsSettledChecks : Nat := 0        -- how often "output = held input" was evaluated
   -- statistics
   cases : Nat := 0
   ops : Nat := 0
@@ -358,6 +366,58 @@ def failNote (prim : String) (p : List Nat) (ins : List (Nat × Nat)) : String :
     if dlt < -half || dlt ≥ half || -dlt < -half || -dlt ≥ half then " signed-difference-overflows" else ""
   | _, _, _ => ""
 
+def graySyncCfg (p : List Nat) : GraySync :=
+  match p with
+  | [w, hasReset, rv, outStages, inStage, _, _] => ⟨w, outStages, inStage == 1, if hasReset == 1 then some rv else none⟩
+  | _ => ⟨0, 0, false, none⟩
+
+/-- synchronizeGrayCode: `p > out` (power-on) and `e <A|B|AB> in > out` (one clock-edge instant) -/
+def stepGraySync (d : D) (kind : String) (toks : List String) : IO D := do
+  let (ins, outs) := splitIO toks
+  let c := graySyncCfg d.params
+  let w := c.w
+  if kind == "p" then
+    let s0 := graySyncInit c
+    let mut d := { d with gs := s0 }
+    let mOut := [fmtO w (graySyncOut c s0)]
+    if mOut != outs then d ← d.diff s!"power-on model={mOut} impl={outs}"
+    match c.reset with
+    | some r =>
+      d := { d with gsResetChecks := d.gsResetChecks + 1 }
+      if [fmt w r] != outs then d ← d.fail s!"power-on reset-phase spec=[{fmt w r}] impl={outs}"
+    | none => pure ()
+    return d
+  match ins with
+  | [ev, a] =>
+    let inp := (parseBits a).2
+    let edgeA := ev == "A" || ev == "AB"; let edgeB := ev == "B" || ev == "AB"
+    -- the first edge of each clock falls into that domain's (one cycle) reset: registers with a reset value keep it
+    let effA := edgeA && !(c.reset.isSome && !d.gsSeenA)
+    let effB := edgeB && !(c.reset.isSome && !d.gsSeenB)
+    let s1 := graySyncStep c d.gs effA effB inp
+    let mut d := { d with gs := s1, gsSeenA := d.gsSeenA || edgeA, gsSeenB := d.gsSeenB || edgeB, gsBeff := d.gsBeff + (if effB then 1 else 0) }
+    let mOut := [fmtO w (graySyncOut c s1)]
+    let desc := s!"event={ev} in={a} latches-so-far={d.gsBeff}"
+    if mOut != outs then d ← d.diff s!"{desc} model={mOut} impl={outs}"
+    -- definition (1): while the chain still holds reset values the output is `reset`
+    match c.reset with
+    | some r =>
+      if d.gsBeff < c.outStages then
+        d := { d with gsResetChecks := d.gsResetChecks + 1 }
+        if [fmt w r] != outs then d ← d.fail s!"{desc} reset-phase spec=[{fmt w r}] impl={outs}"
+    | none => pure ()
+    -- definition (2): an input held long enough (one input-clock latch, then `outStages` output-clock latches) appears at the output
+    let (x, gotA, nB) := d.gsStable
+    let (gotA, nB) := if inp != x then (!c.inStage, 0) else (gotA, nB)
+    let nB := if effB && gotA then nB + 1 else nB
+    let gotA := gotA || effA
+    d := { d with gsStable := (inp, gotA, nB) }
+    if nB ≥ c.outStages then
+      d := { d with gsSettledChecks := d.gsSettledChecks + 1 }
+      if [fmt w inp] != outs then d ← d.fail s!"{desc} settled spec=[{fmt w inp}] impl={outs}"
+    return d
+  | _ => d.diff s!"unparsed graysync line {toks}"
+
 def stepV (d : D) (toks : List String) : IO D := do
   let (ins, outs) := splitIO toks
   let insP := ins.map parseBits
@@ -394,6 +454,7 @@ partial def loop (h : IO.FS.Stream) (d : D) : IO D := do
     loop h { d with caseId := k, prim := prim, params := params, header := s!"prim={prim} params={params}",
                     reportedDiff := false, reportedFail := false, sawErr := false, cases := d.cases + 1,
                     cfg := cfg, mval := reset % 2 ^ cfg.w, sval := reset % 2 ^ cfg.w, sdom := true, prevDesc := "after=[reset]", histBits := #[], histIn := #[], stages := 0,
+                    gs := ⟨none, []⟩, gsSeenA := false, gsSeenB := false, gsBeff := 0, gsStable := (0, false, 0),
                     whist := bump d.whist (wclass (params.getD 0 0)),
                     mhist := if isCounter prim && prim != "updown" then bump d.mhist s!"{prim}:m{params.getD 2 0}" else d.mhist }
   | ["end"] => loop h d
@@ -411,6 +472,12 @@ partial def loop (h : IO.FS.Stream) (d : D) : IO D := do
   | "v" :: rest =>
     let d ← stepV d rest
     loop h { d with ops := d.ops + 1, hist := bump d.hist d.prim }
+  | "p" :: rest =>
+    let d ← stepGraySync d "p" rest
+    loop h { d with ops := d.ops + 1, hist := bump d.hist d.prim }
+  | "e" :: rest =>
+    let d ← stepGraySync d "e" rest
+    loop h { d with ops := d.ops + 1, hist := bump d.hist d.prim }
   | "s" :: rest =>
     let d ← if d.prim == "petreereg" then stepTreeReg d rest else if d.prim == "divpipe" then stepDivPipe d rest else stepSeq d rest
     loop h { d with ops := d.ops + 1, hist := bump d.hist d.prim }
@@ -419,4 +486,4 @@ partial def loop (h : IO.FS.Stream) (d : D) : IO D := do
 def main : IO Unit := do
   let d ← loop (← IO.getStdin) {}
   let js (h : List (String × Nat)) := ",".intercalate (h.map fun (k, n) => s!"\"{k}\":{n}")
-  IO.println s!"SUMMARY \{\"cases\":{d.cases},\"ops\":{d.ops},\"errs\":{d.errs},\"diffs\":{d.diffs},\"propfails\":{d.propfails},\"hist\":\{{js d.hist}},\"widths\":\{{js d.whist}},\"counter_api\":\{{js d.mhist}}}"
+  IO.println s!"SUMMARY \{\"cases\":{d.cases},\"ops\":{d.ops},\"errs\":{d.errs},\"diffs\":{d.diffs},\"propfails\":{d.propfails},\"hist\":\{{js d.hist}},\"widths\":\{{js d.whist}},\"counter_api\":\{{js d.mhist}},\"graysync_reset_checks\":{d.gsResetChecks},\"graysync_settled_checks\":{d.gsSettledChecks}}"
